@@ -120,7 +120,7 @@ struct Tracked {
 
 // ------------------------------------------------------------------------------------------ QAlloc
 struct QLedger {
-    struct Blk { void* p; size_t bytes; bool allocated; bool constructed; int id; const char* type; long dealloc_step; };
+    struct Blk { void* p; size_t bytes; bool allocated; bool constructed; int id; const char* type; long dealloc_step; bool ever_constructed = false; };
     std::deque<Blk> blks;              // deque: references stay valid across scheduling points inside construct/destroy
     std::unordered_map<void*, int> by_addr;
     long null_destroy = 0, null_dealloc = 0, dealloc_constructed = 0;
@@ -158,7 +158,7 @@ struct QAlloc {
         void* p = std::aligned_alloc(alignof(T) < 16 ? 16 : alignof(T), (bytes + 15) / 16 * 16);
         std::memset(p, 0xA5, bytes);
         int id = (int)L.blks.size();
-        L.blks.push_back({p, bytes, true, false, id, __PRETTY_FUNCTION__, -1});
+        L.blks.push_back(QLedger::Blk{p, bytes, true, false, id, __PRETTY_FUNCTION__, -1, false});
         L.by_addr[p] = id;
         L.allocs++;
         VRT_QTRACE("[q] step=%ld f%d allocate #%d %p (%zu bytes)\n", rt().res.steps, self(), id, p, bytes);
@@ -196,7 +196,7 @@ struct QAlloc {
         VRT_QTRACE("[q] step=%ld f%d construct #%d\n", rt().res.steps, self(), b->id);
         if (b->constructed) fail("double-construct", "construct over a live object");
         ::new ((void*)p) U(std::forward<A>(a)...);     // may throw: then nothing is recorded
-        b->constructed = true; L.constructs++;
+        b->constructed = true; b->ever_constructed = true; L.constructs++;
     }
     template<class U> void destroy(U* p) {
         QLedger& L = ledger();
